@@ -776,7 +776,7 @@ func b2i(b bool) int {
 // to the row's offset and - when the row was keyed differently before - makes the old key stop resolving; a delete
 // clears the cell and removes the row's key from the table; other kinds change nothing.
 //
-//@ lemma props=C12,C01 mode=paths
+//@ lemma props=C12,C01,C02 mode=paths
 func vLemmaApplyKey(chs chunks[string], chunk commit.Chunk, buf []byte, last int32, cur commit.Chunk, s int, sel uint8, idx uint32, v0 []byte, n uint16, other string) {
 	vAssume(int(chunk) < len(chs) && len(chs[chunk].fill) == chunkSize/64 && len(chs[chunk].data) == chunkSize)
 	vAssume(idx < 1<<31 && commit.ChunkAt(idx) == chunk && last >= 0 && 0 <= s && s <= len(buf) && sel <= 3 && vShortDelta(last, idx, cur, chunk))
@@ -840,6 +840,7 @@ func vLemmaApplyKey(chs chunks[string], chunk commit.Chunk, buf []byte, last int
 //
 //@ contract target=column.(*Txn).insert use verify=no
 func vContractInsertGhost(txn *Txn, fn func(Row) error, expireAt int64) (idx uint32, err error) {
+	vModifies(&txn.cursor) // the callback may move the transaction's cursor anywhere
 	idx, err = txn.insert(fn, expireAt)
 	vDidInsert++
 	vLastInsertIdx = idx
@@ -858,15 +859,18 @@ func vContractQueryAtGhost(txn *Txn, index uint32, f func(Row) error) (err error
 func vContractBufferFor(txn *Txn, columnName string) (b *commit.Buffer) {
 	b = txn.bufferFor(columnName)
 	vEnsures("buffer", b != nil && vFresh(b))
+	vBufferForName = columnName
 	return
 }
+
+var vBufferForName string // ghost: the column the last bufferFor call asked for
 
 var (
 	vDidInsert, vDidQueryAt      int
 	vLastInsertIdx, vLastQueryAt uint32
 )
 
-//@ lemma props=C12 real=column.(*Txn).InsertKey
+//@ lemma props=C12 real=column.(*Txn).InsertKey use=commit.(*Buffer).PutOperation
 func vLemmaKeyOperations(owner *Collection, key string, at uint32, present bool, sel uint8) {
 	vAssume(owner != nil && owner.pk != nil && owner.pk.seek != nil && vNothingHeld() && sel <= 3)
 	if present {
@@ -875,12 +879,17 @@ func vLemmaKeyOperations(owner *Collection, key string, at uint32, present bool,
 		delete(owner.pk.seek, key)
 	}
 	txn := &Txn{owner: owner}
-	vDidInsert, vDidQueryAt = 0, 0
+	vDidInsert, vDidQueryAt, vPutStrings, vPutOps = 0, 0, 0, 0
 	fn := func(Row) error { return nil }
 	var err error
+	keyWritten := func() bool { // the key is queued for THE INSERTED ROW (wherever the callback left the cursor) in the key column's buffer
+		return vPutStrings == 1 && vPutStringOp == commit.Put && vPutStringIdx == vLastInsertIdx && vPutStringVal == key && vBufferForName == owner.pk.name
+	}
 	switch sel {
 	case 0:
 		err = txn.InsertKey(key, fn)
+		vAssert("insertkey-new-writes-the-key-of-the-new-row", present || keyWritten())
+		vAssert("insertkey-existing-writes-nothing", !present || vPutStrings == 0)
 		vAssert("insertkey-fails-iff-exists", (err != nil) == present || (!present && vDidInsert == 1))
 		vAssert("insertkey-existing-no-insert", !present || (err != nil && vDidInsert == 0))
 		vAssert("insertkey-new-inserts-once", present || vDidInsert == 1)
@@ -888,6 +897,8 @@ func vLemmaKeyOperations(owner *Collection, key string, at uint32, present bool,
 		err = txn.UpsertKey(key, fn)
 		vAssert("upsert-existing-visits-row", !present || (vDidQueryAt == 1 && vLastQueryAt == at && vDidInsert == 0))
 		vAssert("upsert-new-inserts-once", present || (vDidInsert == 1 && vDidQueryAt == 0))
+		vAssert("upsert-new-writes-the-key-of-the-new-row", present || keyWritten())
+		vAssert("upsert-existing-writes-no-key", !present || vPutStrings == 0)
 	case 2:
 		err = txn.QueryKey(key, fn)
 		vAssert("querykey-fails-iff-absent", present || (err != nil && vDidQueryAt == 0))
@@ -895,6 +906,10 @@ func vLemmaKeyOperations(owner *Collection, key string, at uint32, present bool,
 	default:
 		err = txn.DeleteKey(key)
 		vAssert("deletekey-fails-iff-absent", (err != nil) == !present)
+		vAssert("deletekey-absent-queues-nothing", present || vPutOps == 0)
+		vAssert("deletekey-queues-one-delete", !present || (vPutOps == 1 && vPutOpKind == commit.Delete))
+		vAssert("deletekey-of-the-resolved-row", !present || vPutOpIdx == at)
+		vAssert("deletekey-in-the-row-buffer", !present || vBufferForName == rowColumn)
 	}
 	vAssert("locks-released", vNothingHeld())
 }
@@ -1003,8 +1018,16 @@ func vLoopReadStateBuffers(txn *Txn) {
 func vContractAcquirePage(p *txnPool, columnName string) (b *commit.Buffer) {
 	b = p.acquirePage(columnName)
 	vEnsures("fresh-buffer", b != nil && vFresh(b) && b.IsEmpty() && b.Column == columnName)
+	vAcquiredPages++
+	vLastAcquired = b
 	return
 }
+
+// ghost: pages taken from the pool so far, and the last one
+var (
+	vAcquiredPages int
+	vLastAcquired  *commit.Buffer
+)
 
 //@ lemma props=C13,C07
 func vLemmaReadStateStep(owner *Collection, chunkIn int, columns uint64, r *iostream.Reader, streamErr error) {
@@ -1149,7 +1172,19 @@ func vModelColumnSnapshot(c Column, chunk commit.Chunk, dst *commit.Buffer) { vD
 
 var vDidSnapshot int
 
-//@ lemma props=C07,C03
+// ghost observer of column.Snapshot for writeState
+var vDidSnapshotOK int
+
+//@ contract target=column.(*column).Snapshot use verify=no
+func vContractColumnSnapshotGhost(c *column, chunk commit.Chunk, dst *commit.Buffer) (ok bool) {
+	ok = c.Snapshot(chunk, dst)
+	if ok {
+		vDidSnapshotOK++
+	}
+	return
+}
+
+//@ lemma props=C07,C03 real=column.(*column).Snapshot
 func vLemmaColumnSnapshotWrapper(col *column, chunk commit.Chunk, dst *commit.Buffer) {
 	vAssume(col != nil && dst != nil)
 	vDidSnapshot = 0
@@ -1349,6 +1384,7 @@ func vLemmaEnumInterned(names []string, v []byte) {
 func vLemmaAscendHoldsLatch(owner *Collection, index []uint64, name string) {
 	vAssume(owner != nil && owner.slock != nil && vNothingHeld() && len(index) <= 1<<25)
 	vCol = owner
+	vLoadSortIndex = true
 	txn := &Txn{owner: owner, index: index, setup: true}
 	txn.Ascend(name, func(idx uint32) {
 		vAssert("cursor-on-row", txn.cursor == idx)
@@ -1767,7 +1803,7 @@ func vLemmaCommitMarkers(owner *Collection, buf []byte, last int32, cur commit.C
 // (a pass covers the runs present when it starts, commit.vLemmaReaderRange: only a pass begun after the main column
 // is done shows the computed columns the final values).
 //
-//@ lemma props=C01,C03,C06,C16,C19 mode=paths real=column.(*Txn).commitUpdates
+//@ lemma props=C01,C02,C03,C06,C16,C19 mode=paths real=column.(*Txn).commitUpdates
 func vLemmaCommitUpdates(owner *Collection, u *commit.Buffer, chunk commit.Chunk) {
 	vAssume(owner != nil && u != nil && vNothingHeld() && 0 <= vRunS && vRunS <= vRunPos && vRunPos <= commit.VLen(u))
 	vCol = owner
@@ -1787,4 +1823,143 @@ func vLemmaCommitUpdates(owner *Collection, u *commit.Buffer, chunk commit.Chunk
 		}
 	}
 	vAssert("released", vNothingHeld())
+}
+
+// ---------------------------------------------------------------------------------------------
+// writeState (C07, C13, C14): the token sequence of a snapshot's state - version 1, the number of buffers per block
+// (non-index columns + the row buffer), the number of blocks (Collection.chunks), and per block: the block's stored
+// commit id read under the block latch and the mutex, the row buffer holding one Insert per occupied offset of the
+// block (absolute offsets), then one buffer per column whose Snapshot reports true; the first failing write ends the
+// function with that error; the one page it takes from the pool goes back exactly once on every way out.
+// The stream is the ghost token log of the iostream.Writer models; the delegates of WriteRange, bitmap.Range and
+// RangeUntil run for one arbitrary block, occupied offset and column.
+
+// ghost observer of Buffer.PutOperation (its encoding is C05's subject), switched on where a lemma asks for it
+var (
+	vPutOps    int
+	vPutOpKind commit.OpType
+	vPutOpIdx  uint32
+	vPutOpBuf  *commit.Buffer
+)
+
+//@ contract target=commit.(*Buffer).PutOperation optin verify=no
+func vContractPutOperationGhost(b *commit.Buffer, op commit.OpType, idx uint32) {
+	b.PutOperation(op, idx)
+	vPutOps++
+	vPutOpKind, vPutOpIdx, vPutOpBuf = op, idx, b
+}
+
+// ghost observer of Collection.chunks (its own lemma: vLemmaChunks)
+var vChunksResult int
+
+//@ contract target=column.(*Collection).chunks optin verify=no
+func vContractChunksGhost(c *Collection) (n int) {
+	n = c.chunks()
+	vEnsures("block-count-range", 0 <= n && n <= 1<<17)
+	vChunksResult = n
+	return
+}
+
+//@ lemma props=C07,C13,C14 mode=paths real=column.(*Collection).writeState use=commit.(*Buffer).PutOperation,column.(*Collection).chunks
+func vLemmaWriteState(c *Collection, dst io.Writer) {
+	vAssume(c != nil && c.txns != nil && c.slock != nil && vNothingHeld() && vWErr != nil && len(c.fill) <= 1<<25 && len(c.commits) < 1<<20)
+	vCol = c
+	vWN, vWFailed, vPoolPuts, vAcquiredPages, vDidSnapshotOK, vPutOps = 0, false, 0, 0, 0, 0
+	_, err := c.writeState(dst)
+	if vPutOps > 0 {
+		vAssert("row-buffer:one-insert-per-occupied-offset-of-the-block-absolute", vPutOpKind == commit.Insert && vPutOpBuf == vLastAcquired &&
+			int(commit.ChunkAt(vPutOpIdx)) == vWBlock && int(vPutOpIdx>>6) < len(c.fill) && vBit(c.fill, vPutOpIdx))
+	}
+	vAssert("one-page-taken", vAcquiredPages == 1)
+	vAssert("page-released-exactly-once", vPoolPuts == 1 && vPoolLastPut == any(vLastAcquired))
+	vAssert("write-failure-is-returned", !vWFailed || err == vWErr)
+	vAssert("nil-only-if-every-write-succeeded", err != nil || !vWFailed)
+	vAssert("released", vNothingHeld())
+	if vWN >= 1 {
+		vAssert("token0:version", vWKind[0] == 1 && vWVal[0] == 1)
+	}
+	if vWN >= 2 {
+		vAssert("token1:buffers-per-block", vWKind[1] == 1 && vWVal[1] == uint64(vColsCount)+1)
+	}
+	if vWN >= 3 {
+		vAssert("token2:number-of-blocks", vWKind[2] == 2 && vWVal[2] == uint64(vChunksResult))
+	}
+	if vWN >= 4 { // the arbitrary block vWBlock
+		want := uint64(0)
+		if vWBlock < len(c.commits) {
+			want = c.commits[vWBlock]
+		}
+		vAssert("block:stored-commit-id-first", vWKind[3] == 1 && vWVal[3] == want)
+	}
+	if vWN >= 5 {
+		vAssert("block:row-buffer-second", vWKind[4] == 3 && vWVal[4] == 1)
+	}
+	if vWN >= 6 {
+		vAssert("block:then-one-buffer-per-snapshotting-column", vWKind[5] == 3 && vDidSnapshotOK == 1)
+	}
+	vAssert("no-further-tokens", vWN <= 6)
+}
+
+// ---------------------------------------------------------------------------------------------
+// Dropping a computed column (C19, C03, C16): DropTrigger / DropIndex detach the computed column from the column it
+// watches WHILE ITS NAME STILL RESOLVES (DeleteIndex finds what to detach by looking the name up) and only then
+// remove its registry entry; a name that does not resolve, or resolves to something that is not computed, is an
+// error and changes nothing.
+
+var (
+	vRegSeq         int
+	vDeleteIndexAt  int
+	vDeleteColumnAt int
+	vDeleteIndexCol string
+	vDeleteIndexIdx string
+	vDeleteColumn   string
+	vWatched        string
+)
+
+//@ contract target=column.(*columns).DeleteIndex use verify=no
+func vContractDeleteIndexGhost(c *columns, columnName, indexName string) {
+	c.DeleteIndex(columnName, indexName)
+	vRegSeq++
+	vDeleteIndexAt, vDeleteIndexCol, vDeleteIndexIdx = vRegSeq, columnName, indexName
+}
+
+//@ contract target=column.(*columns).DeleteColumn use verify=no
+func vContractDeleteColumnGhost(c *columns, columnName string) {
+	c.DeleteColumn(columnName)
+	vRegSeq++
+	vDeleteColumnAt, vDeleteColumn = vRegSeq, columnName
+}
+
+//@ model column.computed.Column
+func vModelComputedColumn(c computed) string { return vWatched }
+
+func vDropped(err error, name string) {
+	_, isComputed := any(nil).(computed)
+	if vLoadResult != nil {
+		_, isComputed = vLoadResult.Column.(computed)
+	}
+	vAssert("name-looked-up", vLoadCalls >= 1 && vLoadName == name)
+	if vLoadResult == nil || !isComputed {
+		vAssert("unknown-or-not-computed:error-and-nothing-changed", err != nil && vRegSeq == 0)
+	} else {
+		vAssert("detached-from-the-watched-column-first", vDeleteIndexAt == 1 && vDeleteIndexCol == vWatched && vDeleteIndexIdx == name)
+		vAssert("then-removed-from-the-registry", vDeleteColumnAt == 2 && vDeleteColumn == name && vRegSeq == 2)
+		vAssert("no-error", err == nil)
+	}
+}
+
+//@ lemma props=C19
+func vLemmaDropTrigger(c *Collection, name string) {
+	vAssume(c != nil)
+	vLoadSortIndex = false
+	vRegSeq, vLoadCalls, vDeleteIndexAt, vDeleteColumnAt = 0, 0, 0, 0
+	vDropped(c.DropTrigger(name), name)
+}
+
+//@ lemma props=C03,C16
+func vLemmaDropIndex(c *Collection, name string) {
+	vAssume(c != nil)
+	vLoadSortIndex = false
+	vRegSeq, vLoadCalls, vDeleteIndexAt, vDeleteColumnAt = 0, 0, 0, 0
+	vDropped(c.DropIndex(name), name)
 }
